@@ -65,4 +65,25 @@ def convertRow (d : K) (A B : FUnit K) : List K → List K → Except UnitErr (L
 /-- the value expressed in the cgs base unit of its family -/
 def phys (U : FUnit K) (v : K) : K := v * U.scale
 
+/-- what the first half of `convert_flux` multiplies a value (already in base units) by: `/ d²`, `* ν`, nothing -/
+def famTo (ν d : K) : Family → K
+  | .lum => 1 / (d * d)
+  | .fnu => ν
+  | .flux => 1
+
+/-- what the second half multiplies by: `* d²`, `/ ν`, nothing -/
+def famFrom (ν d : K) : Family → K
+  | .lum => d * d
+  | .fnu => 1 / ν
+  | .flux => 1
+
+/-- the single factor a conversion between two supported units amounts to -/
+def convFactor (ν d : K) (fa fb : Family) (sa sb : K) : K := sa * famTo ν d fa * famFrom ν d fb / sb
+
+/-- the distance `SED.read` attaches to a file: the `DISTANCE` keyword when present, else 1 kpc (given in cm) -/
+def readDistance (keyword : Option K) (kpc : K) : K :=
+  match keyword with
+  | some x => x
+  | none => kpc
+
 end SF
